@@ -633,7 +633,7 @@ T fast_atoi(const char *str, const char term='\0')
 		return retval;
 	}
 	for (; *str != term; ++str)
-		retval = (retval << 3) + (retval << 1) + *str - '0';
+		retval = (retval << 3) + (retval << 1) + (*str - '0');
 	return retval;
 }
 
